@@ -3,13 +3,15 @@
 //! The hook callback logs one event per hook point (global sequence, taken while the registry lock
 //! is held for the points inside the critical section) and, according to the run's plan, pauses a
 //! thread at a point (schedule perturbation; a long pause inside the section is a disabled-action
-//! probe: nobody else may enter meanwhile).
+//! probe: nobody else may enter meanwhile).  With an `order` (thread ids), the run follows one exact schedule:
+//! the k-th critical section of the run is entered by thread order[k] - a thread waits at `Lock_wait`
+//! until it is its turn, and the turn passes on at `Unlock`.
 use std::{
     cell::Cell,
     collections::BTreeMap,
     io::{BufRead, BufReader, BufWriter, Write},
     path::PathBuf,
-    sync::{Arc, Barrier, Mutex},
+    sync::{Arc, Barrier, Condvar, Mutex},
     time::Duration,
 };
 
@@ -67,12 +69,37 @@ pub fn main(args: &[String]) -> i32 {
                     .collect()
             })
             .unwrap_or_default();
+        let order: Vec<usize> = run["order"].as_array().map(|a| a.iter().map(|x| x.as_u64().unwrap() as usize).collect()).unwrap_or_default();
+        // (turn, stuck): index of the next section in `order`; set when a thread gave up waiting for its turn
+        let sched = Arc::new((Mutex::new((0usize, false)), Condvar::new()));
         let log = Arc::new(Mutex::new(Log { events: vec![], counts: BTreeMap::new() }));
         {
             let log = log.clone();
             let pauses = pauses.clone();
+            let order = order.clone();
+            let sched = sched.clone();
             ts_rs::verif::set_callback(Some(Arc::new(move |name: &str, _path: &std::path::Path, ty: &str| {
                 let tid = TID.with(|t| t.get());
+                if !order.is_empty() {
+                    let (m, cv) = &*sched;
+                    if name == "Lock_wait" {
+                        let mut g = m.lock().unwrap_or_else(|e| e.into_inner());
+                        let deadline = std::time::Instant::now() + Duration::from_secs(5);
+                        while g.0 < order.len() && order[g.0] != tid && !g.1 {
+                            let left = deadline.saturating_duration_since(std::time::Instant::now());
+                            if left.is_zero() {
+                                g.1 = true; // the code takes other sections than the schedule says: give up, run freely
+                                cv.notify_all();
+                                break;
+                            }
+                            g = cv.wait_timeout(g, left).unwrap_or_else(|e| e.into_inner()).0;
+                        }
+                    } else if name == "Unlock" {
+                        let mut g = m.lock().unwrap_or_else(|e| e.into_inner());
+                        g.0 += 1;
+                        cv.notify_all();
+                    }
+                }
                 let nth = {
                     let mut l = log.lock().unwrap_or_else(|e| e.into_inner());
                     let c = l.counts.entry((tid, name.to_owned())).or_insert(0);
@@ -114,6 +141,7 @@ pub fn main(args: &[String]) -> i32 {
             "rid": run["rid"],
             "events": events,
             "poisoned": ts_rs::verif::registry_poisoned(),
+            "stuck": sched.0.lock().unwrap_or_else(|e| e.into_inner()).1,
             "tree": snapshot(&root, &mut blobs),
         });
         serde_json::to_writer(&mut wr, &o).unwrap();
